@@ -4,20 +4,21 @@ set -e
 out=$1; shift
 here=$(dirname "$0")
 repo=${HEPMC_REPO:-/repo}
+cxx=${VERIF_CXX:-g++}
 flags="-std=c++11 -O1 -ffp-contract=off -fno-builtin -fno-access-control -pthread -I$repo/include -I$here -I$here/../shim $*"
 mkdir -p "$out"
-g++ $flags -DVERIF_T=float -DVERIF_ENTRY=case_float -c "$here/driver_t.cpp" -o "$out/driver_f.o" &
+$cxx $flags -DVERIF_T=float -DVERIF_ENTRY=case_float -c "$here/driver_t.cpp" -o "$out/driver_f.o" &
 p1=$!
-g++ $flags -DVERIF_T=double -DVERIF_ENTRY=case_double -c "$here/driver_t.cpp" -o "$out/driver_d.o" &
+$cxx $flags -DVERIF_T=double -DVERIF_ENTRY=case_double -c "$here/driver_t.cpp" -o "$out/driver_d.o" &
 p2=$!
-g++ $flags "-DVERIF_T=long double" -DVERIF_ENTRY=case_long_double -c "$here/driver_t.cpp" -o "$out/driver_l.o" &
+$cxx $flags "-DVERIF_T=long double" -DVERIF_ENTRY=case_long_double -c "$here/driver_t.cpp" -o "$out/driver_l.o" &
 p3=$!
-g++ $flags -c "$here/main.cpp" -o "$out/main.o" &
+$cxx $flags -c "$here/main.cpp" -o "$out/main.o" &
 p4=$!
-g++ $flags -c "$here/libmwrap.cpp" -o "$out/libmwrap.o" &
+$cxx $flags -c "$here/libmwrap.cpp" -o "$out/libmwrap.o" &
 p5=$!
-g++ $flags -c "$here/mpishim.cpp" -o "$out/mpishim.o" &
+$cxx $flags -c "$here/mpishim.cpp" -o "$out/mpishim.o" &
 p6=$!
 wait $p1; wait $p2; wait $p3; wait $p4; wait $p5; wait $p6
-g++ $flags "$out/main.o" "$out/driver_f.o" "$out/driver_d.o" "$out/driver_l.o" "$out/libmwrap.o" "$out/mpishim.o" \
+$cxx $flags "$out/main.o" "$out/driver_f.o" "$out/driver_d.o" "$out/driver_l.o" "$out/libmwrap.o" "$out/mpishim.o" \
   -Wl,--wrap=pow,--wrap=powf,--wrap=powl,--wrap=log,--wrap=logf,--wrap=logl -o "$out/cxx_driver"
